@@ -54,7 +54,7 @@ func init() {
 		// the model: DetIsPure / NonDetValid are invariants of MC_Codec (map iteration order explicit);
 		// replayed edges additionally check that the decoded message marshals to the model's bytes
 		mcCodecCheck(c, func(v EdgeVerdict) string { return flagIf(v.Fresh && !v.Enc, "detbytes") })
-		st := codecTraceRun(c, "pure", 8, 200, func(v CodecVerdict) bool { return v.Ev == "detn" || v.Sig == "marshal:direct-flags" })
+		st := codecTraceRun(c, "pure", 14, 200, func(v CodecVerdict) bool { return v.Ev == "detn" || v.Sig == "marshal:direct-flags" })
 		c.R.Cov["detn_events"] = st.ByEv["detn"]
 		c.R.Assumptions = append(c.R.Assumptions, "Go map iteration order is randomised per range statement; each value is marshalled 6 times for each of 5 construction histories (30 marshals), maps have up to 9 keys")
 	}})
@@ -84,7 +84,7 @@ func init() {
 		if c.Tier == "thorough" {
 			libTraceRun(c, 30, 90)
 		} else {
-			libTraceRun(c, 6, 50)
+			libTraceRun(c, 4, 40)
 		}
 		c.R.Assumptions = append(c.R.Assumptions, "JSON and text SYNTAX are compared against the reference implementation's documents, not against a TLA+ grammar (DESIGN section 7)")
 	}})
